@@ -193,6 +193,34 @@ func TestKeygen(t *testing.T) {
 			regime = policy.Ordinal
 			ids = policy.DrawIDs(t, p, regime)
 		}
+		// Hierarchical policies demand identifiers that increase from level to level. A quarter of
+		// the hierarchical cases deliberately break that order (ordinal IDs permuted across levels):
+		// the library must then REFUSE the structure - or, if it accepts it, the key generation must
+		// still satisfy the whole oracle below (an accepted structure whose qualified sets cannot
+		// reconstruct is a violation either way).
+		disordered := false
+		if p.Family == policy.Hier && rapid.IntRange(0, 3).Draw(t, "disorder") == 0 {
+			perm := rapid.Permutation(policy.DrawIDs(t, p, policy.Ordinal)).Draw(t, "idperm")
+			ordered := true
+			var prevMax uint64
+			for _, l := range p.Levels {
+				var mx uint64
+				for _, h := range l.Members {
+					if perm[h] <= prevMax {
+						ordered = false
+					}
+					if perm[h] > mx {
+						mx = perm[h]
+					}
+				}
+				if mx > prevMax {
+					prevMax = mx
+				}
+			}
+			if !ordered {
+				ids, regime, disordered = perm, "disordered", true
+			}
+		}
 		kg := rapid.SampledFrom(keygens).Draw(t, "keygen")
 		ctxSeed := rapid.Uint64().Draw(t, "ctxSeed")
 		seeds := map[proto.ID]uint64{}
@@ -200,6 +228,13 @@ func TestKeygen(t *testing.T) {
 			seeds[id] = rapid.Uint64().Draw(t, fmt.Sprintf("seed%d", i))
 		}
 		what := fmt.Sprintf("%s/%s/%s/ids=%v", kg.name, g.Name(), p, ids)
+		if disordered {
+			if refused := keygenRefuses(g, kg, p, ids, ctxSeed); refused {
+				vlib.Case(test, vlib.Desc("refused-disordered", p.String()), false, "hier-disordered=refused")
+				return
+			}
+			vlib.Class(test, "hier-disordered=accepted")
+		}
 		shards := runKeygen(t, g, kg, p, ids, seeds, ctxSeed)
 		pk := checkKeyMaterial(t, g, p, ids, shards, what)
 
@@ -235,4 +270,34 @@ func TestKeygen(t *testing.T) {
 			"keygen="+kg.name, "family="+p.Family, "group="+g.Name(), "ids="+regime, fmt.Sprintf("n=%d", p.N), fmt.Sprintf("ideal=%v", p.Ideal()))
 		vlib.Sample("keygen:"+kg.name, map[string]any{"keygen": kg.name, "policy": p.String(), "ids": ids, "group": g.Name()})
 	})
+}
+
+// keygenRefuses reports whether the library refuses the (disordered) structure when the key
+// generation is set up: at access-structure construction, dealing, or participant construction.
+func keygenRefuses(g proto.Group, kg keygenKind, p *policy.Policy, ids []uint64, ctxSeed uint64) bool {
+	ac, err := policy.Build(p, ids)
+	if err != nil {
+		return true
+	}
+	holders := proto.ToIDs(ids)
+	if kg.name == "dealer" {
+		_, err := g.Deal(ac, vlib.NewPRNG(ctxSeed, "dealer-probe"))
+		return err != nil
+	}
+	ctxs, err := proto.Contexts(holders, ctxSeed, "dkg-probe")
+	if err != nil {
+		return true
+	}
+	for _, id := range holders {
+		prng := vlib.NewPRNG(ctxSeed, "probe")
+		if kg.name == "canetti" {
+			_, err = g.CanettiRunner(ctxs[id], ac, prng)
+		} else {
+			_, err = g.GennaroRunner(ctxs[id], ac, kg.comp, prng)
+		}
+		if err != nil {
+			return true
+		}
+	}
+	return false
 }
